@@ -641,6 +641,122 @@ def check_feat(prop, tier, seed, work, mode, explanation, samples):
     return cov, r.get("violations") or []
 
 
+CONC_CFG = """SPECIFICATION Spec
+CONSTANTS
+  Procs = {%(procs)s}
+  Scenario = "%(sc)s"
+VIEW View
+INVARIANT NoRace
+INVARIANT LockOK
+INVARIANT CacheResults
+CONSTRAINT Emit
+CHECK_DEADLOCK FALSE
+"""
+
+
+def check_c11(tier, seed, work):
+    """C11: the footprint table of Conc.tla (write sets per operation) is the oracle; snapshots of
+    every argument are taken around every call made by a fixed subset of the other properties'
+    replays (run here so that the check is self-contained) plus a dedicated pass that calls the
+    read-only and encoding APIs with every kind of option value."""
+    cfgs = ["us", "cw"] if tier == "quick" else ["us", "uw", "cs", "cw", "co"]
+    h, bindir = vf.prepare(work, cfgs + ["ft"])
+    mc = vf.run_tlc(work, "Conc", CONC_CFG % dict(procs=q(["p1", "p2"]), sc="readers"), tag="conc", workers=8)
+    table = None
+    for l in open(mc["out"], errors="replace"):
+        if l.startswith('"OPTABLE '):
+            table = json.loads(json.loads(l)[len("OPTABLE "):])
+    if not table:
+        raise Infra("Conc.tla emitted no footprint table")
+    readonly = sorted(o for o, v in table.items() if not v["w"])
+    two = dict(vals=q(["v1", "v2"]), keys=q(["K1", "K2"]), mkeys="")
+    results = []
+    states, trans = mc["distinct"], mc["states"]
+    lim = ["-limit", "3"] if tier == "quick" else []
+    # trees: dedicated c11 pass + round trips
+    for name, enabled in (("A", "EnabledA"), ("B", "EnabledB")):
+        t = vf.run_tlc(work, "MC_TreeLaws", LAWS_CFG % dict(two, enabled=enabled) + "CONSTRAINT EmitTree\n", tag="c11trees" + name)
+        states += t["distinct"]; trans += t["states"]
+        results.append(run_replay(bindir, h, "trees", ["-in", t["out"], "-modes", "c11,c01,c02", "-seed", str(seed), "-prop", "C11", "-pkgs", ",".join(cfgs)] + lim, work, "c11trees" + name))
+    # pairs: Diff / MergeStructs
+    p = vf.run_tlc(work, "MC_PairLaws", PAIR_CFG % dict(two, enabled="EnabledP") + "CONSTRAINT EmitPair\n", tag="c11pairs", timeout=1200)
+    states += p["distinct"]; trans += p["states"]
+    results.append(run_replay(bindir, h, "pairs", ["-in", p["out"], "-modes", "c03,c05", "-seed", str(seed), "-prop", "C11", "-pkgs", ",".join(cfgs)] + (["-limit", "4"] if tier == "quick" else []), work, "c11pairs"))
+    # SetNode / DeleteNode / GetNode and SetRequests: messages unchanged
+    m = vf.run_tlc(work, "MC_TreeA", TREE_CFG % dict(two, enabled="EnabledA") + "ACTION_CONSTRAINT Emit\n", tag="c11tree")
+    states += m["distinct"]; trans += m["states"]
+    results.append(run_replay(bindir, h, "tree", ["-in", m["out"], "-ops", "set,setll,delete", "-seed", str(seed), "-prop", "C11", "-pkgs", ",".join(cfgs), "-limit", "3" if tier == "quick" else "1"], work, "c11tree"))
+    g = vf.run_tlc(work, "MC_GnmiSet", GNMI_CFG % dict(two, enabled="EnabledA", maxops=1, maxdoc=2) + "ACTION_CONSTRAINT Emit\n", tag="c11req", timeout=900)
+    states += g["distinct"]; trans += g["states"]
+    results.append(run_replay(bindir, h, "setreq", ["-in", g["out"], "-modes", "setreq", "-seed", str(seed), "-prop", "C11", "-pkgs", ",".join(cfgs), "-limit", "12" if tier == "quick" else "3"], work, "c11req"))
+    # Validate
+    f = vf.run_tlc(work, "FeatModel", FEAT_CFG % "valid", tag="c11feat", workers=8)
+    results.append(run_replay(bindir, h, "feat", ["-in", f["out"], "-prop", "C11", "-pkgs", "ft"], work, "c11feat"))
+    tot = merge_results(results)
+    if tot["evaluated"] == 0:
+        raise Infra("C11 evaluated nothing")
+    cov = dict(states=states, transitions=trans, traces_validated_against_impl=tot["evaluated"], samples=[dict(read_only_operations=readonly)],
+               exhaustive=False, counters=tot["counters"], configurations=cfgs,
+               explanation="footprint table from Conc.tla; snapshots (independent projection of trees, proto.Clone of messages, deep copies of option "
+               "structs and decoded JSON) around: EmitJSON / ConstructIETFJSON / ConstructInternalJSON / Marshal7951 / EncodeTypedValue with all "
+               "RFC7951JSONConfig fields set, TogNMINotifications with both prefix forms, Diff / DiffWithAtomic with DiffPathOpt and IgnoreAdditions, "
+               "Validate with LeafrefOptions, DeepCopy, MergeStructs with options, ytypes.Unmarshal of a decoded JSON value with each option, "
+               "GetNode, SetNode / DeleteNode (path and TypedValue, also with TolerateJSONInconsistencies), UnmarshalSetRequest / "
+               "UnmarshalNotifications (request messages), the util path functions")
+    return cov, tot["violations"]
+
+
+def check_c21(tier, seed, work):
+    """C21: Conc.tla -- all interleavings of read-only operations on shared objects, of writers into
+    distinct trees and of the regexp cache protocol; the cache schedules are replayed with the gate
+    hooks, and the readers / writers scenarios run with real goroutines under the race detector."""
+    cfgs = ["us", "cs"] if tier == "quick" else ["us", "uw", "cs", "cw", "co"]
+    h, bindir = vf.prepare(work, cfgs, race=True)
+    procs = ["p1", "p2"] if tier == "quick" else ["p1", "p2", "p3"]
+    states = trans = 0
+    out = {}
+    for sc in ("readers", "writers", "cache"):
+        mc = vf.run_tlc(work, "Conc", CONC_CFG % dict(procs=q(procs if sc == "cache" else ["p1", "p2"]), sc=sc), tag="conc" + sc, workers=16, timeout=1500)
+        states += mc["distinct"]; trans += mc["states"]
+        out[sc] = mc["out"]
+    res_path = os.path.join(work, "result-concur.json")
+    rounds = 12 if tier == "quick" else 80
+    cmd = [os.path.join(bindir, "replay"), "concur", "-in", out["cache"], "-out", res_path, "-corpus", os.path.join(vf.SCHEMAS, "variants.json"),
+           "-pkgs", ",".join(cfgs), "-seed", str(seed), "-rounds", str(rounds)]
+    p = vf.subprocess.run(cmd, cwd=h, stdout=vf.subprocess.PIPE, stderr=vf.subprocess.STDOUT, text=True, env=dict(os.environ, GORACE="halt_on_error=0"))
+    if not os.path.exists(res_path):
+        raise Infra("concur produced no result (exit %d):\n%s" % (p.returncode, p.stdout[-3000:]))
+    r = json.load(open(res_path))
+    if r.get("infra"):
+        raise Infra("concur: %s" % "; ".join(r["infra"][:5]))
+    violations = r.get("violations") or []
+    if "WARNING: DATA RACE" in p.stdout:
+        import re as _re
+        blocks = p.stdout.split("WARNING: DATA RACE")[1:]
+        seen = set()
+        for b in blocks:
+            fr = _re.findall(r"^\s+(\S+\(\))\s*$|^\s+([\w./()*-]+)\(", b, _re.M)
+            funcs = [x[0] or x[1] for x in fr if (x[0] or x[1]).startswith("github.com/openconfig/ygot")][:2]
+            key = "|".join(funcs)
+            if key in seen:
+                continue
+            seen.add(key)
+            violations.append(dict(property="C21", sig=dict(conjunct="data-race", where=key), detail="the race detector reports a data race: " + b[:1500], case=dict(sub="race", report=b[:4000])))
+    elif p.returncode not in (0, 1):
+        raise Infra("concur exit %d:\n%s" % (p.returncode, p.stdout[-3000:]))
+    if r["evaluated"] == 0:
+        raise Infra("concur evaluated nothing")
+    cov = dict(states=states, transitions=trans, traces_validated_against_impl=r["evaluated"], samples=[dict(note="see counters")], exhaustive=False,
+               counters=r.get("counters"), configurations=cfgs, race_detector=True,
+               explanation="TLC: every interleaving of 2 read-only operations on shared tree/schema/options, of 2 writers into distinct trees "
+               "sharing schema and input messages, and of %d goroutines through the regexp cache protocol (NoRace, LockOK, every call "
+               "returns the compiled pattern). Real code: each emitted cache schedule is forced with the verif gate hooks in "
+               "compilePattern (miss/hit per goroutine must match the model, every call succeeds); the readers and writers scenarios run "
+               "with 2-7 goroutines and randomised GOMAXPROCS under the Go race detector, every goroutine's result compared with the "
+               "sequential result." % len(procs))
+    return cov, violations
+
+
 PIPELINES = {
     "C10": lambda tier, seed, work: check_tree("C10", tier, seed, work, "set,setll", ["SetGetFrame"]),
     "C12": lambda tier, seed, work: check_tree("C12", tier, seed, work, "delete", ["DeleteExact"]),
@@ -651,6 +767,8 @@ PIPELINES = {
     "C03": lambda tier, seed, work: check_pairs("C03", tier, seed, work, "c03", ["DiffLaws"]),
     "C05": lambda tier, seed, work: check_pairs("C05", tier, seed, work, "c05", ["MergeLaws"]),
     "C04": check_c04,
+    "C11": check_c11,
+    "C21": check_c21,
     "C32": check_c32,
     "C13": lambda tier, seed, work: check_gnmiset("C13", tier, seed, work, "setreq", ["SetSemantics"]),
     "C06": check_restrict,
